@@ -89,10 +89,13 @@ pub open spec fn dkp_x_sk_spec(nh: nat, suite: Bytes, ikm: Bytes, nsk: nat) -> B
     labeled_expand_spec(nh, dkp_prk_spec(nh, suite, ikm), suite, L_SK(), Bytes::empty(), nsk)
 }
 // NIST: bytes = LabeledExpand(dkp_prk, "candidate", I2OSP(counter, 1), Nsk); bytes[0] &= bitmask
+// (I2OSP(counter, 1) is the single byte `counter`; spec/lemmas.rs lemma_i2osp_one proves i2osp(c, 1) == [c])
 pub open spec fn dkp_candidate_spec(nh: nat, suite: Bytes, ikm: Bytes, counter: nat, nsk: nat, bitmask: u8) -> Bytes {
-    let b = labeled_expand_spec(nh, dkp_prk_spec(nh, suite, ikm), suite, L_CANDIDATE(), i2osp(counter, 1), nsk);
+    let b = labeled_expand_spec(nh, dkp_prk_spec(nh, suite, ikm), suite, L_CANDIDATE(), seq![counter as u8], nsk);
     b.update(0, b[0] & bitmask)
 }
+// ghost helper used only to seed solver triggers in the candidate-loop invariant (always true)
+pub open spec fn trig(b: bool) -> bool { true }
 }
 
 verus!{
@@ -168,14 +171,16 @@ pub open spec fn ctx_from_schedule(ks: (Bytes, Bytes, Bytes), suite: Bytes) -> C
 }
 
 verus!{
-// ---- §7.1.3 DeriveKeyPair for the NIST curves: first counter in c..=255 whose masked candidate is a
-// valid scalar ("while sk == 0 or sk >= order"); None = DeriveKeyPairError (probability < 2^-8192) ----
-pub open spec fn nist_dkp_first(valid: spec_fn(Bytes) -> bool, nh: nat, suite: Bytes, ikm: Bytes, nsk: nat, bitmask: u8, c: nat) -> Option<nat>
-    decreases 256 - c
-{
-    if c > 255 { None }
-    else if valid(dkp_candidate_spec(nh, suite, ikm, c, nsk, bitmask)) { Some(c) }
-    else { nist_dkp_first(valid, nh, suite, ikm, nsk, bitmask, c + 1) }
+// ---- §7.1.3 DeriveKeyPair for the NIST curves: the result is the candidate of the FIRST counter in 0..=255
+// whose masked candidate is a valid scalar ("while sk == 0 or sk >= order"); if there is none the RFC raises
+// DeriveKeyPairError (probability < 2^-8192) and the implementation diverges ----
+pub open spec fn nist_cand_ok<C>(nh: nat, suite: Bytes, ikm: Bytes, c: nat, nsk: nat, bitmask: u8) -> bool {
+    scalar_ok::<C>(dkp_candidate_spec(nh, suite, ikm, c, nsk, bitmask))
+}
+pub open spec fn nist_dkp_is_first<C>(nh: nat, suite: Bytes, ikm: Bytes, nsk: nat, bitmask: u8, c: nat) -> bool {
+    &&& c <= 255
+    &&& nist_cand_ok::<C>(nh, suite, ikm, c, nsk, bitmask)
+    &&& forall|d: nat| d < c ==> !(#[trigger] nist_cand_ok::<C>(nh, suite, ikm, d, nsk, bitmask))
 }
 }
 
